@@ -178,7 +178,13 @@ def check_handler(case, ctx):
     plan = case["plan"]
     w, out = simhandler.run_plan(plan)
     if out.error is not None:
-        raise out.error
+        import traceback
+        tb = traceback.extract_tb(out.error.__traceback__)
+        if not tb or "/verif/" in tb[-1].filename.replace("\\", "/"):
+            raise out.error  # raised by the harness itself
+        # handle_client itself raised (C09's subject, see known finding C09-keyerror-...): the watchdog trace up to
+        # that point is still judged; the missing return is not this property's concern
+        ctx.cls("handler:handle_client-raised-" + type(out.error).__name__)
     rec = []
     for r in w.trace:
         t, kind = r[0], r[1]
@@ -195,9 +201,16 @@ def check_handler(case, ctx):
             rec.append((t, "fire"))
     timeout = plan["timeout"]
     slack = 2 * max([x * simhandler.OV_U for x in plan["overshoots"]], default=0.0) + SLACK_U * U
-    if out.ended != "ok":
-        ctx.fail("never-closed:handler:" + out.ended, "handle_client did not return; trace tail %r" % (w.trace[-4:],))
     pat, overlap, at_deadline, fired = model(rec, timeout, simloop.T0, slack, ctx, "handler")
+    if out.ended != "ok" and out.error is None:
+        # a callback that fired during a hook before the client handler exists dies on `assert handler`; the
+        # watchdog task is gone and the connection is never closed: consequence of the fire-during-hook finding
+        n_open, during = 0, False
+        for r in rec:
+            n_open += {"hs": 1, "he": -1}.get(r[1], 0)
+            during = during or (r[1] == "fire" and n_open > 0)
+        ctx.fail("never-closed:handler:%s:%s" % (out.ended, "after-fire-during-hook" if during else "other"),
+                 "handle_client did not return; trace tail %r" % (w.trace[-4:],))
     classify(ctx, ("handler", pat), overlap, at_deadline)
     if fired:
         ctx.cls("handler:timed-out")
